@@ -69,6 +69,7 @@ Sanity ==
     IsCase =>
       LET g == Env(doc) IN
       /\ WFDoc(doc)
+      /\ (path.steps = <<>> => DocSanity(doc))
       \* absolute paths ignore the context
       /\ path.abs => \A i \in Ids(doc) : EvalSet(path, g, i) = EvalSet(path, g, 1)
 =============================================================================
